@@ -860,6 +860,8 @@ def signature(case, out, why):
     if t[0] == "fe":
         g = parse_fe_case(case)
         return "fe:%s:%s" % (g["kind"], (why or "")[:40])
+    if t[0] in ("hist", "histj"):
+        return "%s:%s" % (t[0], (why or "")[:50])
     if t[0] == "trace":
         if why and why.startswith("after clear()"):
             # F5: TraceAssembler::clear() loops over the (just emptied) _facets instead of _facet_mask
@@ -1361,8 +1363,6 @@ def oracle_ops(case, out):
         exact_val = rdeg >= 2 * kh + ((dim - 1) if nonaffine else 0)
         exact = {"val": exact_val, "der": exact_val, "grad": (not nonaffine) and rdeg >= 2 * kh}
         names = [n for n in table if n in sec] if g["part"] != "main" else list(table)
-        if g["part"] == "main" and dim == 3:
-            names = [n for n in names if n != "STRAIN9"]       # judged in its own case (part s9)
         for name in names:
             if name not in sec:
                 return "class instance %s was not assembled" % name
@@ -1505,6 +1505,88 @@ CORPUS_TRACE = [
 ]
 
 
+
+# ---------------------------------------------------------------------------------------------
+# history stream: the same request as 2nd, 4th and 5th call of one process, after warm-ups with other rules
+# ---------------------------------------------------------------------------------------------
+
+def fe_cfg_tokens(g, rule=None, alpha=None, warm=False):
+    """the configuration tokens of an fe-type case (after the shape); warm=True applies harness warm_config()"""
+    cu = [x + 1 for x in g["cu"]] if warm else g["cu"]
+    cv = [x * 2 - 1 for x in g["cv"]] if warm else g["cv"]
+    mv = " ".join("%d %s" % (i, " ".join(fs(x) for x in dl)) for i, dl in g["moves"])
+    t = "%d %d %s %s %s %s %d %s %s %s %s" % (g["level"], len(g["moves"]), mv, g["kind"], g["tsp"], g["ssp"], g["d"],
+                                              rule or g["rule"], fs(g["alpha"] if alpha is None else alpha),
+                                              fmt_qlist(cu), fmt_qlist(cv))
+    return " ".join(t.split())
+
+
+def gen_hist_case(rng, tier):
+    """(hist line without REC, [ferec lines for w1, real, w2])"""
+    case = gen_fe_case(rng, tier)
+    g = parse_fe_case(case)
+    rules = [r[0] for r in rules_for(g["fam"], g["dim"]) if r[0] != g["rule"]]
+    r1, r2 = rng.choice(rules), rng.choice(rules)
+    a1, a2 = g["alpha"] + 1, rand_alpha(rng) or F(3)
+    route = rng.choice(["hist", "histj"])
+    head = "%s %s %s W %s %s %s %s" % (route, g["shape"], fe_cfg_tokens(g), r1, fs(a1), r2, fs(a2))
+    recs = ["ferec %s %s" % (g["shape"], fe_cfg_tokens(g, r1, a1, warm=True)),
+            "ferec %s %s" % (g["shape"], fe_cfg_tokens(g)),
+            "ferec %s %s" % (g["shape"], fe_cfg_tokens(g, r2, a2, warm=True))]
+    return head, recs, g
+
+
+def hist_line(head, g, rec_outs):
+    parts = []
+    for out in rec_outs:
+        if is_abnormal(out):
+            return None
+        o = Tk(out)
+        o.expect("T")
+        nT = o.nat()
+        o.expect("S")
+        nS = o.nat()
+        o.expect("R")
+        parts.append((nT, nS, o.calls()))
+    w1, re_, w2 = parts
+    seq = [w1, re_, w2, re_, re_]
+    body = "%d %s" % (len(seq), " ".join(fmt_calls(x[2]) for x in seq))
+    if g["kind"] == "force":
+        return "%s REC V %d %s" % (head, re_[0], body)
+    tag = "M1" if g["kind"] in ("mass", "lapl", "derivt1") else "M2"
+    return "%s REC %s %d %d %s" % (head, tag, re_[0], re_[1], body)
+
+
+def parse_hist_out(out):
+    o = Tk(out)
+    o.expect("H")
+    n = o.nat()
+    res = []
+    for _ in range(n):
+        if o.peek() == "W":
+            o.tok()
+            res.append(("W", o.qlst()))
+        else:
+            res.append(("M",) + read_matrix(o))
+    return res
+
+
+def oracle_hist(case, out):
+    try:
+        if is_abnormal(out):
+            return "a sequence of assembler calls on valid configurations ended with " + out
+        res = parse_hist_out(out)
+        if len(res) != 5:
+            return "wrong number of results"
+        if not (res[1] == res[3] == res[4]):
+            which = "4th" if res[1] != res[3] else "5th"
+            return "the same request gives a different result as 2nd and as %s call of the process " \
+                   "(the result depends on earlier calls)" % which
+        return None
+    except (IndexError, ValueError, AssertionError, KeyError) as e:
+        return "unparsable implementation output (%s): %s" % (repr(e), out[:200])
+
+
 CORPUS_SYNTH = [
     "asmb 1 2 2 2 2 2 2 0 1 1 1 2 0 1 1 1 2 0 1 1/1 16 1/1 0/1 0/1 1/1 1/1 2/1 0/1 1/1 1/1 1/1 0/1 1/1 1/1 3/1 0/1 1/1 2/1 4 1/1 5/1 0/1 1/1",
     # F3 (open, c16-edge:F3): no cell has both a test and a trial dof -> entry-free matrix -> null row_ptr dereferenced
@@ -1549,7 +1631,8 @@ def main(argv):
     quick = args.tier == "quick"
     if args.replay:
         rc = json.load(open(args.replay))["input"]
-        synth = [rc] if rc.split()[0] not in ("fe", "feasm", "bg", "bgsd", "ops", "trace") else []
+        synth = [rc] if rc.split()[0] not in ("fe", "feasm", "bg", "bgsd", "ops", "trace", "hist", "histj") else []
+        hist = [rc] if rc.split()[0] in ("hist", "histj") else []
         ops = [rc] if rc.split()[0] in ("ops", "trace") else []
         fe = [rc] if rc.split()[0] == "fe" else []
         feasm_extra = [rc] if rc.split()[0] == "feasm" else []
@@ -1563,6 +1646,7 @@ def main(argv):
         feasm_extra = []
         ops = CORPUS_OPS + [gen_ops_case(rng, args.tier, k) for k in range(50 if quick else 400)]
         ops += CORPUS_TRACE + [gen_trace_case(rng) for _ in range(60 if quick else 600)]
+        hist = None
     env = {"VERIF_CASE_TIMEOUT": "120"}
     # pre-run of the fe cases: the recorded cell contributions become the input of the model
     feasm = list(feasm_extra)
@@ -1589,7 +1673,27 @@ def main(argv):
                 bgsd.append(l)
     except Exception as e:  # reported by the burgers stream below
         vlib.log("pre-run failed: %s" % e)
+    if hist is None:
+        # recordings: one process per request, the recording call is the first call of its process
+        hist = []
+        gens = [gen_hist_case(rng, args.tier) for _ in range(120 if quick else 1200)]
+        try:
+            rec_lines = [l for _, recs, _ in gens for l in recs]
+            rec_outs = vlib.run_lines([binary], rec_lines, env=env)
+            for k, (head, recs, g) in enumerate(gens):
+                try:
+                    l = hist_line(head, g, rec_outs[3 * k:3 * k + 3])
+                except Exception:
+                    l = None
+                if l is not None:
+                    hist.append(l)
+        except Exception as e:
+            vlib.log("history pre-run failed: %s" % e)
+            hist = [g_[0] + " REC M1 0 0 0" for g_ in gens]
     streams = [
+        vlib.Stream("history", hist, [binary], vlib.driver_cmd(PROP), oracle=oracle_hist, nontrivial=lambda c: True,
+                    describe=lambda c: ["route:" + ("classic" if c.split()[0] == "hist" else "job"), "shape:" + c.split()[1]],
+                    signature=signature, env=env),
         vlib.Stream("scatter", synth, [binary], vlib.driver_cmd(PROP), oracle=oracle_synth, nontrivial=nontrivial_synth,
                     describe=describe_synth, signature=signature, env=env,
                     model_filter=lambda c: not asm_zero_couplings(c)),
@@ -1621,7 +1725,10 @@ def main(argv):
             "operators: every class of common_operators.hpp / common_functionals.hpp per case (table ops_table: class -> "
             "documented form), u^T A v against the exact integral with polynomials not vanishing on the boundary for all "
             "(ir,ic), every block of every blocked operator entry by entry against the scalar operators, classic vs job; "
-            "trace assembler facet selection incl. clear()")
+            "trace assembler facet selection incl. clear(). every fe/burgers/operators/trace case runs a discarded "
+            "warm-up request of the same template instantiations (other rule, other coefficients) before the judged one; "
+            "history: requests [warm-up, real, warm-up, real, real] in one process, classic and job route, all five "
+            "results against the model's assembleSeq, the three real ones equal")
     rc = vlib.run_pipeline(PROP, args.tier, args.seed, lean, streams, t0, assumptions=[
         "Index modelled as unbounded Nat (no 64-bit overflow at the sizes FEAT can allocate)",
         "reading a never written _col_ptr slot (coupling outside the pattern, first touch) is undefined behaviour: "
